@@ -71,7 +71,26 @@ def gen_ref_file(scratch, ref, pairs):
     return path
 
 
-DEFAULT_PARAMS = dict(scanN=3, scanMinN=0, scanLexN=6, scanPadN=1, scanPads=[0], scanTails=['\n'], c14N=3)
+def access_words(ref):
+    """A shortest text leading the documented automaton into each of its states (printable ASCII preferred)."""
+    from collections import deque
+    words = {0: ''}
+    dq = deque([0])
+    while dq:
+        q = dq.popleft()
+        for (a, b), t in ref.trans.get(q, ()):
+            if t in words:
+                continue
+            # a representative of the interval: printable ASCII if the interval has one
+            cands = [c for c in (max(a, 0x21), max(a, 0x20), a) if a <= c <= b and c <= 0x7E]
+            if not cands:
+                continue
+            words[t] = words[q] + chr(cands[0])
+            dq.append(t)
+    return [words[q] for q in sorted(words)]
+
+
+DEFAULT_PARAMS = dict(scanN=3, scanMinN=0, scanLexN=6, scanPadN=1, scanPads=[0], scanTails=['\n'], c14N=3, scanAccN=2)
 
 
 def scan_files(sc, ref, pairs, **params):
@@ -79,6 +98,7 @@ def scan_files(sc, ref, pairs, **params):
     p.update(params)
     params = p
     reffile = gen_ref_file(sc, ref, pairs)
+    params.setdefault('scanAccess', access_words(ref))
     par = gen_params(sc, 'zz_verif_params.go', **params)
     return [os.path.join(HDIR, 'zz_verif_c05.go'), os.path.join(HDIR, 'zz_verif_scan.go'), os.path.join(HDIR, 'zz_verif_c14.go'), reffile, par]
 
@@ -103,7 +123,7 @@ def run(tier, rep):
         pairs = candidate_relation(ref, hint)
         rep.coverage['relation_pairs'] = len(pairs)
         rep.coverage['reference_states'] = ref.n
-        params = dict(scanN=4 if thorough else 3, scanMinN=0, scanLexN=8 if thorough else 6)
+        params = dict(scanN=4 if thorough else 3, scanMinN=0, scanLexN=8 if thorough else 6, scanAccN=3 if thorough else 2)
         files = scan_files(sc, ref, pairs, **params)
         # S1: transition function and labels, all states x all int32 runes
         res = run_gosym(base_cfg(files, 'harnessC05Bisim', tier), sc, 's1')
@@ -116,6 +136,10 @@ def run(tier, rep):
         # S3: the scanning loop over the real two-buffer reader
         res = run_gosym(base_cfg(files, 'harnessScanLoop', tier, concretize=[PKG + '.advanceDFA']), sc, 's3')
         merge_gosym(rep, res, 'S3 lexer.New + NextToken loop + two-buffer reader: every text of <= %d bytes in 0x01..0x7F vs reference token stream' % params['scanN'])
+        handle_violations(rep, res, files, sc)
+        # S4: the same loop started deep inside every token: a shortest text reaching each state of the documented automaton, then symbolic bytes
+        res = run_gosym(base_cfg(files, 'harnessScanAccess', tier, concretize=[PKG + '.advanceDFA']), sc, 's4')
+        merge_gosym(rep, res, 'S4 the same loop on a shortest text reaching each of the %d states of the documented automaton followed by every text of <= %d bytes' % (ref.n, params['scanAccN']))
         handle_violations(rep, res, files, sc)
         rep.assumptions += [
             'text bytes in 0x01..0x7F for the loop harness (NUL is the reader sentinel; bytes >= 0x80 are covered for crash-freedom under C14)',
